@@ -20,6 +20,7 @@ RULE = (
     "where the item failed (continue) or did not produce the output; raise mode surfaces the first failing item's own "
     "exception; RefEval as third voice. Non-trivial: >= 2 combinations; distinct = (inner shape, mode, lengths, "
     "clone, failure pattern, form)."
+    ' Also: broadcast tuples holding a list under clone; raise mode with several failing items in flight and the later one finishing first (limits None/2/3, last-first and random completion orders, runner.map and mapping node).'
 )
 ASSUMPTIONS = ["zip with unequal lengths raises by contract and is not generated", "the order in which items execute is free"]
 DECIDING = ["map_calls", "items_compared"]
